@@ -71,9 +71,26 @@ def impl(case):
 CHARSETS = [list("ab1"), list("abcA"), list("abAB1 "), list("ab.\n1"), list("aßSs"), list("abc")]
 
 
+def _unrolled(n):
+    """size of the pattern with its counted repetitions unrolled (x{m,n} = n copies)"""
+    t = n[0]
+    if t == "rep":
+        return max(1, n[3]) * _unrolled(n[1])
+    if t in ("alt", "cat"):
+        return _unrolled(n[1]) + _unrolled(n[2])
+    if t in ("star", "plus", "opt"):
+        return 1 + _unrolled(n[1])
+    return 1
+
+
 def make_case(rng, i, tier):
     cs = rng.choice(CHARSETS)
-    ast = regexgen.gen_re(rng, rng.choice([1, 2, 2, 3] if tier == "quick" else [2, 3, 3, 4]), cs)
+    depth = rng.choice([1, 2, 2, 3] if tier == "quick" else [2, 3, 3, 4])
+    ast = regexgen.gen_re(rng, depth, cs)
+    while _unrolled(ast) > 24:
+        # nested counted repetitions of nullable alternatives ((x{1,3}){2,3}|y+)?){2,4} make interegular's subset construction take
+        # minutes (observed once in 1 500 thorough cases: a worker time-out, i.e. no verdict); time is not what C18 is about
+        ast = regexgen.gen_re(rng, depth, cs)
     if rng.random() < 0.12:
         ast = suffix_loop(rng, [c for c in cs if c.isalnum()] or cs)
     if "ß" in cs and rng.random() < 0.5:
